@@ -37,7 +37,7 @@ func init() {
 		// every unit in a fresh process: package-level state and caches inside shared values are cold when the
 		// goroutines start (a lazily filled table is only racy while it is being filled)
 		UnitPerProcess: true,
-		MaxJobs:        4,
+		MaxJobs:        6,
 		Rule: "each workload = a list of operations per goroutine (operations on values the goroutine owns, or read-only queries on a value shared by all goroutines); every unit runs in a FRESH process of a -race build and starts with the concurrent phase on freshly built (cold) values: the lists run on 16 goroutines at GOMAXPROCS 16, then 4, then 2, with seeded Gosched calls between operations, repeated; afterwards every operation is executed sequentially on a second, independently built instance of the same values to obtain its expected result fingerprint; judged: zero data-race reports (counted from the race detector's log, deduplicated by the innermost library frames) and every concurrent result equal to the sequential one. " +
 			"non-trivial = pair of operations on different goroutines whose [call, return] intervals overlapped in time (one monotonic clock); distinct = (workload, round, operation pair), counted by a sweep over the recorded intervals",
 		Assumptions: []string{
@@ -48,7 +48,7 @@ func init() {
 		Run:            run,
 		MinEvaluations: map[string]int{"quick": 20000, "thorough": 100000},
 		MinNontrivial:  map[string]int{"quick": 20000, "thorough": 100000},
-		RequiredObs:    []string{"race_build", "workload:search-shards", "workload:canonical", "workload:shared-dawg", "workload:shared-graphs", "workload:own-values", "workload:comb", "workload:clique-producers", "workload:harness-stub", "ops_concurrent"},
+		RequiredObs:    []string{"race_build", "workload:search-shards", "workload:canonical", "workload:shared-dawg", "workload:shared-graphs", "workload:own-values", "workload:own-graphs", "workload:shared-large-graphs", "workload:comb", "workload:clique-producers", "workload:harness-stub", "ops_concurrent"},
 	})
 }
 
@@ -331,6 +331,129 @@ func sharedGraphs(c *engine.Ctx, G int) workload {
 					is := s.e.InducedSubgraph([]int{4, 2, 0, 1})
 					is.RemoveEdge(0, 1)
 					return fp(graph.Graph6Encode(cp), graph.Graph6Encode(is), cp.Degrees())
+				}})
+			}
+		}
+		w.ops = append(w.ops, ops)
+	}
+	return w
+}
+
+// ownGraphs: every goroutine owns a handful of graphs of very different shape (disconnected, trees, empty, single
+// vertex, dense) and runs the read-only algorithms on them; the rounds repeat, so anything a call leaves behind in
+// package-level state (a pooled scratch buffer released twice on an early-exit path, a "last result" variable) is in
+// place when the next round's calls overlap.
+func ownGraphs(c *engine.Ctx, G int) workload {
+	w := workload{name: "own-graphs"}
+	for g := 0; g < G; g++ {
+		r := c.Rand("c19-own-graphs", g)
+		shapes := []struct {
+			name string
+			g    *rg.G
+		}{
+			{"two-cycles(disconnected)", rg.Union(gen.Cycle(5+g%7), gen.Cycle(20))},
+			{"forest(disconnected)", rg.Union(gen.RandomTree(r, 9), gen.RandomTree(r, 6))},
+			{"tree", gen.RandomTree(r, 14)},
+			{"G(12,.3)", gen.Random(r, 12, 0.3)},
+			{"G(30,.15)", gen.Random(r, 30, 0.15)},
+			{"edgeless5", rg.New(5)},
+			{"K1", rg.New(1)},
+			{"K0", rg.New(0)},
+			{"cycle63+isolated", rg.Union(gen.Cycle(63), rg.New(2))},
+			{"grid4x5", gen.Grid(4, 5)},
+		}
+		var ops []op
+		for si, sh := range shapes {
+			var h graph.Graph = sh.g.Dense()
+			if (si+g)%2 == 1 {
+				h = sh.g.Sparse()
+			}
+			n := sh.g.N
+			name := sh.name
+			ops = append(ops,
+				op{name + ":distances", func() string {
+					d := -2
+					if n > 1 {
+						d = graph.Distance(h, 0, n-1)
+					}
+					return fp(graph.Eccentricity(h), graph.Diameter(h), graph.Radius(h), graph.Girth(h), d)
+				}},
+				op{name + ":components", func() string {
+					bc, ap := graph.BiconnectedComponents(h)
+					cc := -1
+					if n > 0 {
+						cc = len(graph.ConnectedComponent(h, n/2))
+					}
+					return fp(graph.ConnectedComponents(h), bc, ap, cc)
+				}},
+				op{name + ":invariants", func() string {
+					d, ord := graph.Degeneracy(h)
+					order := make([]int, n)
+					for i := range order {
+						order[i] = n - 1 - i
+					}
+					k, col := graph.GreedyColor(h, order)
+					return fp(d, ord, k, col, graph.CliqueNumber(h), graph.IsPlanar(h), graph.NumberOfInducedPaths(h, 2), graph.NumberOfInducedCycles(h, 5), graph.CanonicalIsomorph(h))
+				}},
+				op{name + ":codecs", func() string {
+					s6 := graph.Sparse6Encode(h)
+					back, err := graph.Sparse6Decode(s6)
+					return fp(graph.Graph6Encode(h), s6, err, err == nil && graph.Equal(back, h), graph.MulticodeEncode(h))
+				}},
+			)
+		}
+		w.ops = append(w.ops, ops)
+	}
+	return w
+}
+
+// sharedLarge: shared values beyond the sizes where a word-sized mask or a small fixed buffer suffices (views on more
+// than 64 / 128 vertices): only the cheap observers and polynomial algorithms.
+func sharedLarge(c *engine.Ctx, G int) workload {
+	w := workload{name: "shared-large-graphs"}
+	r := c.Rand("c19-large", 0)
+	base := gen.Random(r, 100, 0.06)
+	host := gen.Random(r, 130, 0.07)
+	V := r.Perm(130)[:90]
+	shared := []struct {
+		name string
+		g    graph.Graph
+	}{
+		{"dense100", base.Dense()}, {"sparse100", base.Sparse()},
+		{"induced-view(90 of 130, sparse host)", graph.InducedSubgraph(host.Sparse(), V)},
+		{"induced-view(66 of 130, dense host)", graph.InducedSubgraph(host.Dense(), append([]int{}, V[:66]...))},
+		{"complement-view(sparse100)", graph.Complement(base.Sparse())},
+	}
+	for g := 0; g < G; g++ {
+		var ops []op
+		for si := range shared {
+			s := shared[(si+g)%len(shared)]
+			n := s.g.N()
+			ops = append(ops,
+				op{s.name + ":observers", func() string {
+					h := uint64(0)
+					for v := 0; v < n; v++ {
+						h = h*1000003 + hash(fp(s.g.Neighbours(v)))
+					}
+					e := 0
+					for v := 0; v < n; v += 7 {
+						for u := 0; u < n; u += 3 {
+							if s.g.IsEdge(u, v) {
+								e++
+							}
+						}
+					}
+					return fp(n, s.g.M(), hash(fp(s.g.Degrees())), h, e)
+				}},
+				op{s.name + ":distances", func() string {
+					return fp(hash(fp(graph.Eccentricity(s.g))), graph.Girth(s.g), graph.Distance(s.g, 0, n-1), graph.Distance(s.g, n/2, 1), len(graph.ConnectedComponents(s.g)))
+				}},
+			)
+			if !strings.HasPrefix(s.name, "complement") {
+				ops = append(ops, op{s.name + ":blocks+degeneracy+encoders", func() string {
+					bc, ap := graph.BiconnectedComponents(s.g)
+					d, ord := graph.Degeneracy(s.g)
+					return fp(len(bc), ap, d, hash(fp(ord)), hash(graph.Sparse6Encode(s.g)), hash(graph.Graph6Encode(s.g)))
 				}})
 			}
 		}
@@ -683,6 +806,8 @@ func run(c *engine.Ctx) {
 			{"shared-dawg", func() (workload, error) { return sharedDawg(c, G, rep) }},
 			{"shared-graphs", func() (workload, error) { return sharedGraphs(c, G), nil }},
 			{"own-values", func() (workload, error) { return ownValues(c, G), nil }},
+			{"own-graphs", func() (workload, error) { return ownGraphs(c, G), nil }},
+			{"shared-large-graphs", func() (workload, error) { return sharedLarge(c, G), nil }},
 			{"comb", func() (workload, error) { return combTables(G), nil }},
 			{"clique-producers", func() (workload, error) { return cliqueProducers(c, G), nil }},
 			{"harness-stub", func() (workload, error) { return harnessStub(G), nil }},
@@ -706,7 +831,7 @@ func run(c *engine.Ctx) {
 					return
 				}
 				r := rounds
-				if m.name == "search-shards" {
+				if m.name == "search-shards" || m.name == "shared-large-graphs" {
 					r = 1 + rounds/3
 				}
 				runWorkload(c, w, ref, r)
